@@ -17,7 +17,21 @@ func main() {
 	replay := flag.String("replay", "", "replay a stored violation")
 	dir := flag.String("verif", "/verif", "verif directory")
 	budget := flag.Duration("budget", 0, "exploration time budget")
+	scen := flag.String("scenario", "", "explore a single scenario (debug)")
+	enum := flag.String("enum", "", "run a single enumeration (debug)")
+	pb := flag.Int("p", 1, "preemption bound for -scenario")
+	db := flag.Int("d", 1, "deviation bound for -scenario")
 	flag.Parse()
+	if *enum != "" {
+		self, _ := os.Executable()
+		props.DebugEnum(*enum, *tier, self)
+		return
+	}
+	if *scen != "" {
+		self, _ := os.Executable()
+		props.DebugScenario(*scen, *pb, *db, self)
+		return
+	}
 	if *worker {
 		props.WorkerLoop()
 		return
